@@ -10,7 +10,9 @@ package queue
 // and the assumed contracts of container/heap are in /verif/libspec/heap.spec.
 
 // Assumption about the element type: Key and ScheduledTime are functions of the value (an element does not change
-// its key or its time while it is queued) and have no effect.
+// its key or its time while it is queued) and have no effect; and ONE integer per value, qsched(v) = unixNano of
+// ScheduledTime, orders both Time.Before (heap order) and Time.Sub (deadline). That holds for times that all carry a
+// monotonic reading or all carry none; a mix of both across a wall-clock jump is outside this model (audit 4.4).
 //@ func (Queueable).Key
 //@   skip
 //@   params v
@@ -151,55 +153,157 @@ package queue
 // representation invariant of the queue: assumed after every acquisition (whatever other goroutines did), proved
 // before every release. The queue methods themselves are sequential code; that they run with the lock held is
 // asserted at every call site ([C06.locked]).
+//
+// "An item is never left queued with no loop serving it" (C06, sentence 4) is the monitor invariant [C06.inv.served] /
+// [C06.inv.token] over two ghost fields that only change with the lock held:
+//   serving   a loop goroutine exists (or has just been handed to `go`) that holds the running slot and will take the
+//             lock and Peek again before it gives the slot back -- unless it receives the stop signal first.
+//             Set by process() when it obtains the slot and spawns the loop, and by the loop at each Peek under the
+//             lock (to "the queue is not empty": a loop that has seen the queue empty is about to end). That a loop
+//             which said "serving" keeps the promise is [C06.loop.committed] (it returns only after a Peek that saw
+//             the queue empty, or on the stop signal) and [C06.spawn.loop] (the spawned goroutine runs processLoop).
+//   tokfull   the one-slot channel processorRunningCh holds its element. Set by the successful non-blocking send in
+//             process(), cleared by the loop's receive on the empty path -- both with the lock held.
+//   [C06.inv.served]  queue not empty and not stopped  ==>  serving
+//   [C06.inv.token]   tokfull and not stopped          ==>  serving
+// Operations on the slot that happen WITHOUT the lock, and why they keep the invariant (interference, argued here and
+// checked clause by clause): (a) the deferred receive of a loop that ends on the stop signal ([C06.loop.release]) only
+// clears tokfull; (b) Close's blocking send sets it, but only after `stopped` was set ([C06.close.token]); (c) `stopped`
+// only ever goes from 0 to 1 (Close's CAS is the only store), which weakens both antecedents. Hence both ghosts are
+// listed under `protects` (havocked, subject to the invariant, at every acquisition).
+//
+// CHAN: channel semantics used (Go spec), stated as at-clauses on the statement's own operands:
+//   (1) process(), select#0:  a non-blocking send (select with default) on a channel of capacity 1 takes the default
+//       case only if the slot is occupied:
+//           at select#0 assume (res0 == -1 && selhassend(p.processorRunningCh) && cap(p.processorRunningCh) == 1) ==> p.tokfull
+//       ([C06.new.caps], [chans]: the capacity is 1; tokfull mirrors the slot because the only operations on that channel
+//       are the four named above: process's send, the loop's receive on the empty path, the deferred receive, Close's
+//       send -- [C06.process.slot], [C06.loop.giveup], [C06.loop.release.chan], [C06.close.token] tie them to that channel)
+//   (2) Close, recv#0:  a receive from a channel that nobody sends on completes only once the channel is closed:
+//           at recv#0 assume arg0 == p.stopCh ==> chdone[arg0]
+//       ([C06.chan.nosend]: asserted at every send statement / select send case of every function of this file that has
+//       one, and "no send at all" in the others; [chans] says stopCh differs from the two channels that are sent on).
+//       chdone[c] is the monotone ghost "c is closed".
+// Timer semantics (a timer's channel delivers no earlier than the duration it was armed with) is the clock's and is
+// not part of this proof: the clauses on processLoop say "not early"; that the callback is not LATE is not claimed
+// (the timer is armed with the difference computed at an earlier Now(), audit 1.3).
+// Paper composition (not machine-checked): "exactly once for every history" is put together from per-call facts --
+// [C06.enq.view]/[C06.deq.view] (what is queued), [C06.exec.*] (only the head, popped before the call, hence at most once
+// per insertion), [C06.inv.served] + [C06.loop.committed] (a queued item has a loop that will peek again), the kick
+// clauses ([C06.enq.earlier], [C06.process.kick], [C06.loop.listens]) and the timer semantics above.
 
 //@ ghost var chdone [int]bool
 
 //@ type Processor
-//@   lock lock protects queue queueItem.index queueItem.value
+//@   ghost serving bool
+//@   ghost tokfull bool
+//@   lock lock protects queue queueItem.index queueItem.value serving tokfull
 //@   lockinv lock [C06.inv.queue] inv(self.queue)
-//@   invariant [cfg] self.clock != nil
+//@   lockinv lock [C06.inv.served] (len(*self.queue.heap) > 0 && self.stopped.v == 0) ==> self.serving
+//@   lockinv lock [C06.inv.token] (self.tokfull && self.stopped.v == 0) ==> self.serving
+//@   invariant [cfg] self.clock != nil && self.executeFn != nil
+//@   invariant [chans] cap(self.processorRunningCh) == 1 && cap(self.resetCh) == 1 && cap(self.stopCh) == 0 && self.stopCh != self.processorRunningCh && self.stopCh != self.resetCh && self.resetCh != self.processorRunningCh
 
+// NewProcessor: empty queue, not stopped, no loop; the running slot and the reset slot have capacity exactly one (one
+// loop at a time; a reset posted while the loop is busy is kept for it), the stop channel is unbuffered and open.
+// A nil callback would crash the loop goroutine at the first due item: programmer misuse, excluded by precondition.
 //@ func NewProcessor
 //@   tags C06 C07
+//@   requires executeFn != nil
 //@   modifies nothing
+//@   ensures [C06.new.caps] cap(result.processorRunningCh) == 1 && cap(result.resetCh) == 1 && cap(result.stopCh) == 0
 //@   ensures [C06.new] result != nil && fresh(result) && inv(result) && inv(result.queue) && len(result.queue.items) == 0 && result.stopped.v == 0 && !chdone[result.stopCh]
+//@   ensures [C06.new.idle] !result.serving && !result.tokfull && len(*result.queue.heap) == 0
 //@   at store stopCh#0 ghost chdone = update(chdone, arg0, false)
+//@   at return ghost result.serving = false
+//@   at return ghost result.tokfull = false
 
 //@ func (*Processor).WithClock
 //@   tags C06 C07
-//@   requires p != nil
+//@   requires p != nil && clock != nil
 //@   modifies p.clock
 //@   ensures result == p && p.clock == clock
 
-// process: called with the lock held (precondition, proved at every call site); starts the loop goroutine or posts
-// a reset; touches nothing the lock protects.
+// process: called with the lock held (precondition, proved at every call site). Afterwards a non-empty queue is being
+// served ([C06.process.served]): either the slot was free and a loop goroutine has been spawned -- only then, exactly
+// one, and counted in the WaitGroup before it starts ([C06.process.token]) -- or the slot is taken, which by
+// [C06.inv.token] means a loop is serving; in that case a caller that changed the head posts a reset, or one is
+// already pending ([C06.process.kick]).
 //@ func (*Processor).process
 //@   tags C06 C07
 //@   opt locks=caller
+// go=ignore: the state is not havocked at the go statement. Everything the postconditions mention is protected by
+// p.lock, which the caller holds until after process has returned; the spawned loop touches it only under that lock.
+// The spawn itself is visible to the clauses through the `before go#0` anchor.
 //@   opt go=ignore
 //@   requires [C06.process.locked] p != nil && heldw(p.lock) && inv(p)
-//@   modifies nothing
+//@   requires [C06.process.tokinv] (p.tokfull && p.stopped.v == 0) ==> p.serving
+//@   modifies p.serving, p.tokfull
 //@   ensures heldw(p.lock)
+//@   ghost got bool
+//@   ghost added bool
+//@   ghost tried bool
+//@   at entry ghost got = false
+//@   at entry ghost added = false
+//@   at entry ghost tried = false
+//@   at select#0 assume (res0 == -1 && selhassend(p.processorRunningCh) && cap(p.processorRunningCh) == 1) ==> p.tokfull
+//@   at select#0 assert [C06.process.slot] arg0 == p.processorRunningCh && selhassend(p.processorRunningCh)
+//@   at select#0 ghost got = (res0 == 0 && selchan == p.processorRunningCh && selsend)
+//@   at select#0 ghost p.tokfull = got ? true : p.tokfull
+//@   at select#0 ghost p.serving = got ? true : p.serving
+//@   at call Add#0 ghost added = (arg1 == 1)
+//@   at before go#0 assert [C06.process.token] got && added
+//@   at select#1 ghost tried = (arg0 == p.resetCh && selhassend(p.resetCh))
+//@   at every before send assert [C06.chan.nosend] arg0 != p.stopCh
+//@   at every select assert [C06.chan.nosend] !selhassend(p.stopCh)
+//@   ensures [C06.process.kick] (!got && isNext) ==> tried
+//@   ensures [C06.process.served] (len(*p.queue.heap) > 0 && p.stopped.v == 0) ==> p.serving
+//@   ensures [C06.process.tokinv] (p.tokfull && p.stopped.v == 0) ==> p.serving
 
 // the loop goroutine: serves the queue and runs the user callback, so its effects are not bounded by the frame of the
-// Enqueue/Dequeue that happened to start it
+// Enqueue/Dequeue that happened to start it. It runs processLoop and reports to the WaitGroup, after the loop has
+// ended ([C06.spawn.loop], [C06.spawn.done]).
 //@ func (*Processor).process$1
 //@   tags C06 C07
 //@   opt go=detached
 //@   requires p != nil && inv(p)
+//@   ghost looped bool
+//@   at entry ghost looped = false
+//@   ghost reported bool
+//@   at entry ghost reported = false
+//@   at call processLoop#0 ghost looped = true
+//@   at before call Done#0 assert [C06.spawn.done] looped
+//@   at call Done#0 ghost reported = true
+//@   at return assert [C06.spawn.loop] looped && reported
 
+// the deferred release of the running slot: a loop that ends gives the slot back exactly once -- here, unless it has
+// already done so under the lock on the empty-queue path (a second receive would take the slot of a later loop, or the
+// one Close keeps for good).
 //@ func (*Processor).processLoop$1
 //@   tags C06 C07
 //@   requires p != nil
 //@   modifies nothing
+//@   ghost gave bool
+//@   at entry ghost gave = false
+//@   at every recv assert [C06.loop.release.chan] arg0 == p.processorRunningCh && !released
+//@   at every recv ghost gave = true
+//@   at return assert [C06.loop.release] gave != released
 
 // execute(r): executeFn is called only with the value that is the head at pop time under the lock and equals the
 // peeked r; by then it has left the queue and the lock has been released. An item dequeued or replaced after the
 // peek (head != r at L) is not executed and the queue is left as it was.
+// The linearisation point is the Pop: a Dequeue(k) / replacing Enqueue that takes the lock after the Pop returns
+// normally although the callback for the popped value starts afterwards (read here as: the item had already been
+// handed out; the statement's "dequeued before it became due" is decided at the Pop).
+// The user callback (an unnamed func type cannot carry a contract) is assumed not to reconfigure the processor
+// (`at call funcvalue#0 assume inv(p)`: p.clock, p.executeFn and the three channel fields keep their values).
 //@ func (*Processor).execute
 //@   tags C06 C07
+//@   at every before send assert [C06.chan.nosend] false
+//@   at every select assert [C06.chan.nosend] forall c :: !selhassend(c)
 //@   ghost called bool
-//@   requires p != nil
+//@   requires p != nil && inv(p)
+//@   ensures inv(p)
 //@   ensures [C06.exec.called] called <==> (at(L, len(*p.queue.heap)) > 0 && at(L, (*p.queue.heap)[0].value) == r)
 //@   ensures [C06.exec.skip] !called ==> (forall k tp :: at(U0, haskey(p.queue.items, k)) == at(L, haskey(p.queue.items, k)) && at(U0, p.queue.items[k]) == at(L, p.queue.items[k]))
 //@   at call Lock#0 label L
@@ -213,81 +317,132 @@ package queue
 //@   at before call funcvalue#0 assert [C06.exec.removed] !at(U, haskey(p.queue.items, qkey(old(r)))) && at(U, len(p.queue.items)) == at(L, len(p.queue.items)) - 1
 //@   at before call funcvalue#0 assert [C06.exec.unlocked] nolocks()
 //@   at before call funcvalue#0 ghost called = true
+//@   at call funcvalue#0 assume inv(p)
 
-// Enqueue: insert-or-replace under the lock; the isFirst flag handed to process is true exactly when the head before
-// the operation had r's key (the head is being replaced) or the head after it is r.
+// Enqueue: insert-or-replace under the lock, then process() -- always, so that a non-empty queue has a loop
+// ([C06.inv.served] at the unlock). The loop must be kicked (isNext) whenever the earliest scheduled time got earlier
+// or the queue was empty: a loop parked on a timer for the old head would otherwise run the new head late
+// ([C06.enq.earlier]; a head that got later needs no kick: the old timer fires, execute sees another head and the loop
+// peeks again). A stopped processor is left alone: no lock, no insert, no loop ([C06.enq.stopped]).
 //@ func (*Processor).Enqueue
 //@   tags C06 C07
+//@   at every before send assert [C06.chan.nosend] false
+//@   at every select assert [C06.chan.nosend] forall c :: !selhassend(c)
+//@   ghost touched bool
 //@   requires p != nil && inv(p)
-//@   ensures [C06.enq.stopped] old(p.stopped.v) != 0 ==> nolocks()
+//@   at entry ghost touched = false
+//@   at every call Lock ghost touched = true
+//@   at every call process ghost touched = true
+//@   at every call Insert ghost touched = true
+//@   ensures [C06.enq.stopped] old(p.stopped.v) != 0 ==> (!touched && nolocks())
 //@   ensures [C06.enq.view] old(p.stopped.v) == 0 ==> (at(U, haskey(p.queue.items, qkey(r))) && at(U, p.queue.items[qkey(r)].value) == r
 //@        && (forall k tp :: k != qkey(r) ==> (at(U, haskey(p.queue.items, k)) == at(L, haskey(p.queue.items, k)) && (at(L, haskey(p.queue.items, k)) ==> at(U, p.queue.items[k].value) == at(L, p.queue.items[k].value)))))
 //@   at call Lock#0 label L
 //@   at before call Peek#0 assert [C06.locked] heldw(p.lock)
 //@   at before call Insert#0 assert [C06.locked] heldw(p.lock) && arg2
 //@   at before call Peek#1 assert [C06.locked] heldw(p.lock)
-//@   at before call process#0 assert [C06.enq.isfirst] arg1 <==> ((at(L, len(*p.queue.heap)) > 0 && qkey(at(L, (*p.queue.heap)[0].value)) == qkey(r)) || (*p.queue.heap)[0].value == r)
+//@   at before call process#0 assert [C06.enq.earlier] (at(L, len(*p.queue.heap)) == 0 || qsched((*p.queue.heap)[0].value) < qsched(at(L, (*p.queue.heap)[0].value))) ==> arg1
 //@   at before call Unlock#0 label U
 
-// Dequeue: remove under the lock; process(true) is called exactly when the head before the operation had that key.
+// Dequeue: remove under the lock. Removing an item never makes the earliest time earlier, so no kick is owed (a loop
+// parked for the removed head wakes at its old time, execute finds another head and the loop peeks again).
 //@ func (*Processor).Dequeue
 //@   tags C06 C07
-//@   ghost kicked bool
+//@   at every before send assert [C06.chan.nosend] false
+//@   at every select assert [C06.chan.nosend] forall c :: !selhassend(c)
+//@   ghost touched bool
 //@   requires p != nil && inv(p)
+//@   at entry ghost touched = false
+//@   at every call Lock ghost touched = true
+//@   at every call process ghost touched = true
+//@   at every call Remove ghost touched = true
+//@   ensures [C06.deq.stopped] old(p.stopped.v) != 0 ==> (!touched && nolocks())
 //@   ensures [C06.deq.view] old(p.stopped.v) == 0 ==> (!at(U, haskey(p.queue.items, key))
 //@        && (forall k tp :: k != key ==> (at(U, haskey(p.queue.items, k)) == at(L, haskey(p.queue.items, k)) && (at(L, haskey(p.queue.items, k)) ==> at(U, p.queue.items[k].value) == at(L, p.queue.items[k].value)))))
-//@   ensures [C06.deq.isfirst] old(p.stopped.v) == 0 ==> (kicked <==> (at(L, len(*p.queue.heap)) > 0 && qkey(at(L, (*p.queue.heap)[0].value)) == key))
 //@   at call Lock#0 label L
-//@   at call Lock#0 ghost kicked = false
 //@   at before call Peek#0 assert [C06.locked] heldw(p.lock)
 //@   at before call Remove#0 assert [C06.locked] heldw(p.lock)
-//@   at before call process#0 assert [C06.deq.next] arg1
-//@   at call process#0 ghost kicked = true
 //@   at before call Unlock#0 label U
 
 // processLoop (select = nondeterministic choice). gdl is the deadline computed from the peeked item: the saturated
-// difference ScheduledTime - Now. execute is reached only with the peeked item, and only if that difference was below
-// 500µs at the check, or after the timer armed with exactly that difference fired (select index 0). When the timer
-// channel actually delivers is the clock's timer semantics and is not part of this proof.
+// difference ScheduledTime - Now. "Not more than 0.5 ms early": execute is reached only with the peeked item, and only
+// if that difference was below 500µs at the check, or after the timer armed with (at least) that difference fired
+// (select index 0). When the timer channel actually delivers is the clock's timer semantics and is not part of this proof.
 //@ func (*Processor).processLoop
 //@   tags C06 C07
 //@   ghost gdl int
 //@   ghost fired bool
 //@   requires p != nil && inv(p)
 //@   loop 0 invariant p == old(p) && inv(p) && nolocks()
-// execute ends in the user callback, for which the engine has no frame (an unnamed func type cannot carry a contract):
-// it is assumed not to reconfigure the processor (p.clock stays non-nil).
-//@   at call execute assume inv(p)
 //@   at before call Peek#0 assert [C06.locked] heldw(p.lock)
 //@   at call Sub#0 assert [C06.loop.deadline] unixNano(arg0) == qsched(call_Peek_0_result) && unixNano(arg1) == unixNano(call_Now_0_result)
 //@   at call Sub#0 ghost gdl = res0
 //@   at before call execute#0 assert [C06.loop.due] gdl < 500000 && arg1 == call_Peek_0_result && nolocks()
-//@   at before call NewTimer#0 assert [C06.loop.timer] arg1 == gdl && gdl >= 500000
+//@   at before call NewTimer#0 assert [C06.loop.timer] arg1 >= gdl && gdl >= 500000
 //@   at select#1 ghost fired = res0 == 0
 //@   at before call execute#1 assert [C06.loop.fired] fired && gdl >= 500000 && arg1 == call_Peek_0_result && nolocks()
-// the loop gives up serving the queue only when it has just seen it empty under the lock (nothing executed or waited
-// for since), or on the stop signal: an item is never left queued with no loop serving it
-//@   ghost emptyseen bool
+// "Once Close returns no callback ... will run": every execute is preceded, in the same iteration, by the non-blocking
+// select that listens on stopCh and chose `default` -- i.e. (Go spec: default only if no case can proceed) the stop
+// signal had not been sent at that instant. A loop iteration that starts after the stop signal starts no callback.
+//@   ghost stopchecked bool
+//@   at entry ghost stopchecked = false
+//@   at call Lock#0 ghost stopchecked = false
+//@   at select#0 ghost stopchecked = (res0 == -1 && selhas(p.stopCh))
+//@   at every before call execute assert [C06.loop.stopcheck] stopchecked
+// While parked on the timer the loop listens for the reset signal (the head got earlier) and the stop signal.
+//@   at select#1 assert [C06.loop.listens] selhas(p.resetCh) && selhas(p.stopCh)
+// The serving promise. committed: this loop will take the lock and Peek again before it ends (true from the start:
+// the first thing it does). It becomes false only at a Peek that sees the queue empty; then, still under the lock, the
+// running slot is given back ([C06.loop.giveup]), so that [C06.inv.token] holds at the unlock and a later process()
+// finds the slot free and starts a new loop. A committed loop returns only on the stop signal ([C06.loop.committed]).
+//@   ghost committed bool
 //@   ghost stopseen bool
-//@   at call Lock#0 ghost stopseen = false
-//@   at call Peek#0 ghost emptyseen = !res1
-//@   at call execute ghost emptyseen = false
-//@   at select#0 ghost stopseen = (res0 == 0)
-//@   at select#1 ghost stopseen = (res0 == 2)
-//@   at select#1 ghost emptyseen = false
-//@   at return assert [C06.loop.exit] emptyseen || stopseen
+//@   ghost gave bool
+//@   at entry ghost committed = true
+//@   at entry ghost stopseen = false
+//@   at entry ghost gave = false
+//@   loop 0 invariant committed && !gave && !stopseen && !released
+//@   at call Peek#0 ghost committed = res1
+//@   at call Peek#0 ghost p.serving = res1
+//@   at before recv#0 assert [C06.loop.giveup] arg0 == p.processorRunningCh && heldw(p.lock) && !committed && !gave
+//@   at recv#0 ghost p.tokfull = false
+//@   at recv#0 ghost gave = true
+// stopseen: the case chosen by the select is a receive from p.stopCh (at select#1: and not the timer case, whose
+// channel is the clock's and not known to differ from stopCh)
+//@   at select#0 ghost stopseen = (res0 >= 0 && !selsend && selchan == p.stopCh)
+//@   at select#1 ghost stopseen = (res0 >= 1 && !selsend && selchan == p.stopCh)
+//@   at every before send assert [C06.chan.nosend] arg0 != p.stopCh
+//@   at every select assert [C06.chan.nosend] !selhassend(p.stopCh)
+//@   at return assert [C06.loop.committed] !committed || stopseen
+//@   at return assert [C06.loop.released] released == gave
 
-// Close: the goroutine that wins the CAS closes stopCh, exactly once.
-// Every Close -- also one that loses the CAS to a concurrent Close -- returns only after wg.Wait() (the loop goroutine,
-// and with it any callback in progress, has ended).
+// Close ("once Close returns no callback is running or will run"): the call that wins the CAS closes stopCh, exactly
+// once, and THEN takes the running slot and keeps it ([C06.close.token], [C06.close.sealed]): the blocking send
+// completes only when no loop holds the slot, and no process() can obtain it afterwards. Every Close that returns --
+// also one that loses the CAS to a concurrent Close -- returns only after the stop signal has been sent
+// ([C06.close.stopsent]), after which a loop iteration that starts runs no callback ([C06.loop.stopcheck]), and after
+// wg.Wait() has been called with the stop signal already out ([C06.close.join]). That Wait() blocks until every loop
+// goroutine counted by Add(1) ([C06.process.token]) has called Done() ([C06.spawn.done]) is sync.WaitGroup's semantics:
+// assumed, not modelled (WaitGroup is opaque in the libspec), so "no callback is still RUNNING" for a Close that lost
+// the CAS rests on it; for the Close that won it also follows from the slot ([C06.close.token]).
 //@ func (*Processor).Close
 //@   tags C06 C07
-//@   requires p != nil
-//@   ghost waited int
-//@   at before call CompareAndSwap#0 ghost waited = 0
-//@   at call Wait ghost waited = 1
-//@   ensures [C06.close.join] waited == 1
+//@   requires p != nil && inv(p)
 //@   requires p.stopped.v == 0 ==> !chdone[p.stopCh]
+//@   ghost tokentaken bool
+//@   ghost waited bool
+//@   at entry ghost tokentaken = false
+//@   at entry ghost waited = false
+//@   at every before call Wait assert [C06.close.join] (old(p.stopped.v) == 0 ==> chdone[p.stopCh]) && nolocks()
+//@   at every call Wait ghost waited = true
+//@   ensures [C06.close.join] waited
+//@   at recv#0 assume arg0 == p.stopCh ==> chdone[arg0]
+//@   at recv#0 assert [C06.close.waits] arg0 == p.stopCh
+//@   at before send#0 assert [C06.close.token] arg0 == p.processorRunningCh && chdone[p.stopCh] && p.stopped.v != 0 && nolocks()
+//@   at send#0 ghost tokentaken = true
+//@   at every before send assert [C06.chan.nosend] arg0 != p.stopCh
+//@   ensures [C06.close.sealed] old(p.stopped.v) == 0 ==> tokentaken
+//@   ensures [C06.close.stopsent] chdone[p.stopCh]
 //@   ensures [C07.close.once] result == nil && p.stopped.v != 0 && (old(p.stopped.v) == 0 ==> chdone[p.stopCh])
 //@   at close#0 assert [C07.close.fresh] !chdone[p.stopCh]
 //@   at close#0 ghost chdone = update(chdone, p.stopCh, true)
